@@ -850,7 +850,19 @@ func parseFuncHeader(s, pkgPath string) (*Contract, error) {
 	nameEnd := -1
 	if strings.HasPrefix(s, "(") {
 		// receiver form: (*T).Name or (T).Name
-		r := strings.Index(s, ")")
+		r := -1
+		depth := 0
+		for i, ch := range s {
+			if ch == '(' {
+				depth++
+			} else if ch == ')' {
+				depth--
+				if depth == 0 {
+					r = i
+					break
+				}
+			}
+		}
 		if r < 0 {
 			return nil, fmt.Errorf("bad receiver in %q", s)
 		}
